@@ -11,6 +11,7 @@ import (
 	_map "github.com/atomix/go-sdk/pkg/primitive/map"
 	"github.com/atomix/go-sdk/pkg/types"
 	"github.com/google/uuid"
+	pathutils "github.com/onosproject/onos-config/pkg/utils/path"
 	"github.com/onosproject/onos-config/pkg/utils/v2/tree"
 	"io"
 	"sync"
@@ -535,7 +536,9 @@ func (s *configurationStore) getApplied(ctx context.Context, id configapi.Config
 func (s *configurationStore) store(ctx context.Context, store _map.Map[string, *configapi.PathValue], values map[string]*configapi.PathValue) error {
 	prunedValues := tree.PrunePathMap(values, true)
 	transaction := store.Transaction(ctx)
+	revived := make(map[string]bool)
 	for _, pv := range values {
+		written := false
 		entry, err := store.Get(ctx, pv.Path)
 		if err != nil {
 			err = errors.FromAtomix(err)
@@ -544,11 +547,34 @@ func (s *configurationStore) store(ctx context.Context, store _map.Map[string, *
 			}
 			if _, ok := prunedValues[pv.Path]; ok {
 				transaction.Insert(pv.Path, pv)
+				written = true
 			}
 		} else if _, ok := prunedValues[pv.Path]; !ok {
 			transaction.Remove(pv.Path, _map.IfVersion(entry.Version))
 		} else if pv.Index != entry.Value.Index {
 			transaction.Update(pv.Path, pv, _map.IfVersion(entry.Version))
+			written = true
+		}
+
+		// A value written beneath a node that was deleted earlier revives that node: the caller has dropped the
+		// tombstones of its ancestors from the given values, so drop the stored ones too. Left in the map they
+		// would prune the new value away again on the next write.
+		if written && !pv.Deleted {
+			for parent := pathutils.GetParentPath(pv.Path); parent != ""; parent = pathutils.GetParentPath(parent) {
+				if _, ok := values[parent]; ok || revived[parent] {
+					continue
+				}
+				revived[parent] = true
+				parentEntry, err := store.Get(ctx, parent)
+				if err != nil {
+					err = errors.FromAtomix(err)
+					if !errors.IsNotFound(err) {
+						return err
+					}
+				} else if parentEntry.Value.Deleted {
+					transaction.Remove(parent, _map.IfVersion(parentEntry.Version))
+				}
+			}
 		}
 	}
 	if _, err := transaction.Commit(); err != nil {
